@@ -1,8 +1,436 @@
-//! Concurrency scenarios (C15, C20) — filled in later.
+//! Concurrency scenarios under the controlled scheduler.
+//!  * C15: reader tasks (sessions with reads / proofs) and writer tasks (blocking and non-blocking
+//!    session commits, overlay commits, rollbacks) on one handle; every call is recorded with the
+//!    simulator's global event counter at invocation and return, and the recorded history is
+//!    checked for linearizability against the sequential model (Wing-Gong search with memo).
+//!  * C20: racing `Nomt::open` calls on one directory.
 use crate::disk::SimDisk;
-use crate::exec::Shared;
-use crate::scenario::Scenario;
+use crate::exec::{to_options, Report, SessGuard, Shared, Violation};
+use crate::model::{ref_trie, HashCache, State};
+use crate::scenario::*;
+use bitvec::prelude::*;
+use nomt::hasher::{Blake3Hasher, Sha2Hasher};
+use nomt::{HashAlgorithm, KeyReadWrite, Nomt, SessionParams};
+use serde::{Deserialize, Serialize};
+use simrt::shuttle;
+use std::collections::{BTreeMap, HashSet};
 use std::path::PathBuf;
-use std::sync::Arc;
-pub fn run_concurrent(_s: &Scenario, _dir: PathBuf, _rep: Shared, _disk: Arc<SimDisk>) { unimplemented!() }
-pub fn run_openrace(_s: &Scenario, _dir: PathBuf, _rep: Shared, _disk: Arc<SimDisk>) { unimplemented!() }
+use std::sync::atomic::{AtomicI64, AtomicU64, Ordering};
+use std::sync::{Arc, Mutex};
+
+#[derive(Clone, Debug, Serialize, Deserialize, PartialEq)]
+pub enum WOp {
+    Commit { writes: Vec<(K, Option<VSpec>)>, nonblocking: bool, retries: u32 },
+    OverlayCommit { writes: Vec<(K, Option<VSpec>)>, nonblocking: bool },
+    Rollback { n: usize },
+}
+#[derive(Clone, Debug, Serialize, Deserialize, PartialEq)]
+pub struct ROp { pub reads: Vec<K>, pub proves: Vec<K>, pub hold: u32 }
+#[derive(Clone, Debug, Serialize, Deserialize, PartialEq)]
+pub struct ConcPlan { pub initial: Vec<(K, VSpec)>, pub writers: Vec<Vec<WOp>>, pub readers: Vec<Vec<ROp>>, pub initial_commits: u32 }
+
+static CLOCK: AtomicU64 = AtomicU64::new(1);
+fn tick() -> u64 { CLOCK.fetch_add(1, Ordering::SeqCst) }
+
+#[derive(Clone, Debug)]
+enum Ev {
+    /// begin_session: snapshot observations are attached to the begin event
+    SessBegin { id: usize, obs: Vec<(Key, Option<Vec<u8>>)>, prev_root: [u8; 32] },
+    SessEnd { id: usize },
+    CommitOk { prev_root: [u8; 32], new_root: [u8; 32], writes: Vec<(Key, Option<VSpec>)> },
+    CommitStale { prev_root: [u8; 32] },
+    HandedBack,
+    RollbackOk { n: usize },
+    RollbackErr { n: usize },
+}
+#[derive(Clone, Debug)]
+struct Rec { inv: u64, ret: u64, task: String, ev: Ev }
+
+type Hist = Arc<Mutex<Vec<Rec>>>;
+
+fn viol(rep: &Shared, prop: &str, class: &str, detail: String) {
+    rep.lock().unwrap().violations.push(Violation { property: prop.into(), class: class.into(), detail, step: None });
+}
+
+pub fn run_concurrent(scen: &Scenario, dir: PathBuf, rep: Shared, disk: Arc<SimDisk>) {
+    match scen.hasher { Hasher::Blake3 => conc::<Blake3Hasher>(scen, dir, rep, disk), Hasher::Sha2 => conc::<Sha2Hasher>(scen, dir, rep, disk) }
+}
+
+fn conc<H: HashAlgorithm + Send + Sync + 'static>(scen: &Scenario, dir: PathBuf, rep: Shared, disk: Arc<SimDisk>) {
+    let plan: ConcPlan = serde_json::from_value(scen.extra["plan_conc"].clone()).expect("plan_conc");
+    let warm = scen.opts.warm_up;
+    let nomt = match Nomt::<H>::open(to_options(&dir, &scen.opts)) { Ok(n) => Arc::new(n), Err(e) => { viol(&rep, &scen.property, "open-failed", format!("{e:#}")); return; } };
+    disk.adopt(&dir);
+    // initial state: one or more commits so that rollbacks have something to undo
+    let mut model_hist: Vec<State> = Vec::new();
+    let mut cur = State::new();
+    let chunks = plan.initial_commits.max(1) as usize;
+    for c in 0..chunks {
+        let part: Vec<(K, VSpec)> = plan.initial.iter().enumerate().filter(|(i, _)| i % chunks == c).map(|(_, x)| *x).collect();
+        let s = nomt.begin_session(SessionParams::default());
+        let mut actuals: Vec<(Key, KeyReadWrite)> = part.iter().map(|(k, v)| (k.0, KeyReadWrite::Write(Some(value_bytes(&k.0, *v))))).collect();
+        actuals.sort_by(|a, b| a.0.cmp(&b.0));
+        let fin = match s.finish(actuals) { Ok(f) => f, Err(e) => { viol(&rep, &scen.property, "finish-error", format!("{e:#}")); return; } };
+        if let Err(e) = fin.commit(&nomt) { viol(&rep, &scen.property, "commit-error", format!("{e:#}")); return; }
+        model_hist.push(cur.clone());
+        for (k, v) in part { cur.insert(k.0, v); }
+        rep.lock().unwrap().commits += 1;
+    }
+    let hist: Hist = Arc::new(Mutex::new(Vec::new()));
+    let sess_ids = Arc::new(AtomicU64::new(0));
+    let mut handles = Vec::new();
+    for (wi, ops) in plan.writers.iter().cloned().enumerate() {
+        let (nomt, hist, rep2, prop, sess_ids) = (nomt.clone(), hist.clone(), rep.clone(), scen.property.clone(), sess_ids.clone());
+        handles.push(shuttle::thread::Builder::new().name(format!("writer-{wi}")).spawn(move || {
+            let task = format!("writer-{wi}");
+            for op in ops {
+                match op {
+                    WOp::Commit { writes, nonblocking, retries } => {
+                        let mut attempt = 0;
+                        loop {
+                            let sid = sess_ids.fetch_add(1, Ordering::SeqCst) as usize;
+                            let b0 = tick();
+                            let s = nomt.begin_session(SessionParams::default());
+                            let b1 = tick();
+                            let prev_root = s.prev_root().into_inner();
+                            hist.lock().unwrap().push(Rec { inv: b0, ret: b1, task: task.clone(), ev: Ev::SessBegin { id: sid, obs: vec![], prev_root } });
+                            let mut actuals: Vec<(Key, KeyReadWrite)> = writes.iter().map(|(k, v)| (k.0, KeyReadWrite::Write(v.map(|v| value_bytes(&k.0, v))))).collect();
+                            actuals.sort_by(|a, b| a.0.cmp(&b.0));
+                            let e0 = tick();
+                            let fin = match s.finish(actuals) { Ok(f) => f, Err(e) => { viol(&rep2, &prop, "finish-error", format!("{e:#}")); return; } };
+                            let e1 = tick();
+                            hist.lock().unwrap().push(Rec { inv: e0, ret: e1, task: task.clone(), ev: Ev::SessEnd { id: sid } });
+                            let new_root = fin.root().into_inner();
+                            let w: Vec<(Key, Option<VSpec>)> = writes.iter().map(|(k, v)| (k.0, *v)).collect();
+                            let inv = tick();
+                            let ev = if nonblocking {
+                                match fin.try_commit_nonblocking(&nomt) { Ok(None) => Ev::CommitOk { prev_root, new_root, writes: w }, Ok(Some(_)) => Ev::HandedBack, Err(_) => Ev::CommitStale { prev_root } }
+                            } else {
+                                match fin.commit(&nomt) { Ok(()) => Ev::CommitOk { prev_root, new_root, writes: w }, Err(_) => Ev::CommitStale { prev_root } }
+                            };
+                            let ret = tick();
+                            let done = matches!(ev, Ev::CommitOk { .. });
+                            hist.lock().unwrap().push(Rec { inv, ret, task: task.clone(), ev });
+                            attempt += 1;
+                            if done || attempt > retries { break; }
+                        }
+                    }
+                    WOp::OverlayCommit { writes, nonblocking } => {
+                        let sid = sess_ids.fetch_add(1, Ordering::SeqCst) as usize;
+                        let b0 = tick();
+                        let s = nomt.begin_session(SessionParams::default());
+                        let b1 = tick();
+                        let prev_root = s.prev_root().into_inner();
+                        hist.lock().unwrap().push(Rec { inv: b0, ret: b1, task: task.clone(), ev: Ev::SessBegin { id: sid, obs: vec![], prev_root } });
+                        let mut actuals: Vec<(Key, KeyReadWrite)> = writes.iter().map(|(k, v)| (k.0, KeyReadWrite::Write(v.map(|v| value_bytes(&k.0, v))))).collect();
+                        actuals.sort_by(|a, b| a.0.cmp(&b.0));
+                        let e0 = tick();
+                        let fin = match s.finish(actuals) { Ok(f) => f, Err(e) => { viol(&rep2, &prop, "finish-error", format!("{e:#}")); return; } };
+                        let e1 = tick();
+                        hist.lock().unwrap().push(Rec { inv: e0, ret: e1, task: task.clone(), ev: Ev::SessEnd { id: sid } });
+                        let ov = fin.into_overlay();
+                        let new_root = ov.root().into_inner();
+                        let w: Vec<(Key, Option<VSpec>)> = writes.iter().map(|(k, v)| (k.0, *v)).collect();
+                        let inv = tick();
+                        let ev = if nonblocking {
+                            match ov.try_commit_nonblocking(&*nomt) { Ok(None) => Ev::CommitOk { prev_root, new_root, writes: w }, Ok(Some(_)) => Ev::HandedBack, Err(_) => Ev::CommitStale { prev_root } }
+                        } else {
+                            match ov.commit(&*nomt) { Ok(()) => Ev::CommitOk { prev_root, new_root, writes: w }, Err(_) => Ev::CommitStale { prev_root } }
+                        };
+                        let ret = tick();
+                        hist.lock().unwrap().push(Rec { inv, ret, task: task.clone(), ev });
+                    }
+                    WOp::Rollback { n } => {
+                        let inv = tick();
+                        let r = nomt.rollback(n);
+                        let ret = tick();
+                        hist.lock().unwrap().push(Rec { inv, ret, task: task.clone(), ev: if r.is_ok() { Ev::RollbackOk { n } } else { Ev::RollbackErr { n } } });
+                    }
+                }
+            }
+        }).unwrap());
+    }
+    for (ri, ops) in plan.readers.iter().cloned().enumerate() {
+        let (nomt, hist, rep2, sess_ids) = (nomt.clone(), hist.clone(), rep.clone(), sess_ids.clone());
+        handles.push(shuttle::thread::Builder::new().name(format!("reader-{ri}")).spawn(move || {
+            let task = format!("reader-{ri}");
+            for op in ops {
+                let id = sess_ids.fetch_add(1, Ordering::SeqCst) as usize;
+                let inv = tick();
+                let s = SessGuard::new(nomt.begin_session(SessionParams::default()), warm);
+                let ret = tick();
+                let prev_root = s.prev_root().into_inner();
+                let mut obs = Vec::new();
+                for (j, k) in op.reads.iter().enumerate() {
+                    match s.read(k.0) { Ok(v) => obs.push((k.0, v)), Err(e) => { viol(&rep2, "C15", "read-error", format!("{e:#}")); return; } }
+                    if j as u32 % 2 == 0 { for _ in 0..op.hold { shuttle::thread::yield_now(); } }
+                }
+                for k in &op.proves {
+                    match s.prove(k.0) {
+                        Ok(p) => {
+                            // the proof must verify against the session's own base root and agree with its reads
+                            match p.verify::<H>(k.0.view_bits::<Msb0>(), prev_root) {
+                                Ok(vp) => {
+                                    let read = s.read(k.0).ok().flatten();
+                                    let ok = match &read { Some(v) => vp.confirm_value(&nomt::trie::LeafData { key_path: k.0, value_hash: H::hash_value(v) }).unwrap_or(false), None => vp.confirm_nonexistence(&k.0).unwrap_or(false) };
+                                    if !ok { viol(&rep2, "C15", "session-proof-disagrees-with-read", format!("proof and read of {} in one session disagree", hex(&k.0))); return; }
+                                    obs.push((k.0, read));
+                                }
+                                Err(e) => { viol(&rep2, "C15", "session-proof-does-not-verify", format!("proof for {} does not verify against the session's base root: {e:?}", hex(&k.0))); return; }
+                            }
+                        }
+                        Err(e) => { viol(&rep2, "C15", "prove-error", format!("{e:#}")); return; }
+                    }
+                }
+                hist.lock().unwrap().push(Rec { inv, ret, task: task.clone(), ev: Ev::SessBegin { id, obs, prev_root } });
+                let inv2 = tick();
+                drop(s);
+                let ret2 = tick();
+                hist.lock().unwrap().push(Rec { inv: inv2, ret: ret2, task: task.clone(), ev: Ev::SessEnd { id } });
+            }
+        }).unwrap());
+    }
+    for h in handles { let _ = h.join(); }
+    if !rep.lock().unwrap().violations.is_empty() { return; }
+    let h = hist.lock().unwrap().clone();
+    let mut hc = HashCache::default();
+    let rollback_on = scen.opts.rollback;
+    let max_log = scen.opts.max_rollback_log_len as usize;
+    match linearise::<H>(&h, &cur, &model_hist, rollback_on, max_log, &mut hc) {
+        Ok(final_state) => {
+            // no committed batch lost: the store now holds exactly the folded state, also after reopen
+            let trie_root = ref_trie::<H>(&final_state, &mut hc).hash();
+            if nomt.root().into_inner() != trie_root { viol(&rep, "C15", "final-root", format!("root after all tasks joined = {}, fold of the winning changesets = {}", hex(&nomt.root().into_inner()), hex(&trie_root))); return; }
+            let keys: Vec<Key> = plan.initial.iter().map(|x| x.0 .0).chain(plan.writers.iter().flatten().flat_map(|op| match op { WOp::Commit { writes, .. } | WOp::OverlayCommit { writes, .. } => writes.iter().map(|w| w.0 .0).collect::<Vec<_>>(), _ => vec![] })).collect();
+            for k in &keys {
+                let got = nomt.read(*k).ok().flatten();
+                let want = final_state.get(k).map(|v| value_bytes(k, *v));
+                if got != want { viol(&rep, "C15", "committed-batch-lost", format!("after all tasks joined read({}) = {}, fold of the winning changesets = {}", hex(k), crate::exec::dv(&got), crate::exec::dv(&want))); return; }
+            }
+            let nomt = match Arc::try_unwrap(nomt) { Ok(n) => n, Err(_) => { viol(&rep, "HARNESS", "harness-panic", "handle still shared".into()); return; } };
+            drop(nomt);
+            match Nomt::<H>::open(to_options(&dir, &scen.opts)) {
+                Ok(n2) => { if n2.root().into_inner() != trie_root { viol(&rep, "C15", "final-root", "root after reopen differs from the fold of the winning changesets".into()); } }
+                Err(e) => viol(&rep, "C15", "reopen-failed", format!("{e:#}")),
+            }
+            let mut r = rep.lock().unwrap();
+            r.commits += h.iter().filter(|x| matches!(x.ev, Ev::CommitOk { .. } | Ev::RollbackOk { .. })).count() as u64;
+            r.reads_checked += h.iter().map(|x| if let Ev::SessBegin { obs, .. } = &x.ev { obs.len() as u64 } else { 0 }).sum::<u64>();
+            r.steps_done = h.len();
+            for x in &h {
+                let k = match &x.ev { Ev::SessBegin { .. } => "conc.session", Ev::SessEnd { .. } => continue, Ev::CommitOk { .. } => "conc.commit-ok", Ev::CommitStale { .. } => "conc.commit-stale", Ev::HandedBack => "conc.handed-back", Ev::RollbackOk { .. } => "conc.rollback-ok", Ev::RollbackErr { .. } => "conc.rollback-refused" };
+                *r.probes.entry(k.to_string()).or_default() += 1;
+            }
+            r.signature ^= h.iter().fold(0u64, |a, x| crate::rng::mix(a ^ x.inv ^ (x.ret << 20) ^ x.task.len() as u64));
+        }
+        Err(msg) => viol(&rep, "C15", "history-not-linearizable", msg),
+    }
+}
+
+/// Sequential specification + Wing-Gong linearizability search over the recorded history.
+fn linearise<H: HashAlgorithm>(h: &[Rec], init: &State, init_hist: &[State], rollback_on: bool, max_log: usize, hc: &mut HashCache) -> Result<State, String> {
+    #[derive(Clone)]
+    struct St { cur: State, hist: Vec<State>, retained: usize, live: i32, snaps: BTreeMap<usize, State> }
+    let n = h.len();
+    if n > 60 { return Err(format!("history too long for the checker ({n} events)")); }
+    let init_st = St { cur: init.clone(), hist: init_hist.to_vec(), retained: if rollback_on { init_hist.len().min(max_log) } else { 0 }, live: 0, snaps: BTreeMap::new() };
+    fn key_of(done: u64, st: &St) -> (u64, u64) {
+        let mut x = 0u64;
+        for (k, v) in &st.cur { x = crate::rng::mix(x ^ u64::from_le_bytes(k[..8].try_into().unwrap()) ^ (v.stamp as u64) << 32 ^ v.len as u64); }
+        x = crate::rng::mix(x ^ st.hist.len() as u64 ^ (st.retained as u64) << 16 ^ (st.live as u64) << 40);
+        (done, x)
+    }
+    let mut seen: HashSet<(u64, u64)> = HashSet::new();
+    let mut roots: BTreeMap<u64, [u8; 32]> = BTreeMap::new();
+    let mut root_of = |st: &State, hc: &mut HashCache| -> [u8; 32] {
+        let mut x = 0u64;
+        for (k, v) in st { x = crate::rng::mix(x ^ u64::from_le_bytes(k[..8].try_into().unwrap()) ^ u64::from_le_bytes(k[8..16].try_into().unwrap()).rotate_left(7) ^ (v.stamp as u64) << 32 ^ v.len as u64); }
+        *roots.entry(x).or_insert_with(|| ref_trie::<H>(st, hc).hash())
+    };
+    // iterative DFS
+    let mut stack: Vec<(u64, St)> = vec![(0, init_st)];
+    let mut best = 0u32;
+    let mut best_reason = String::new();
+    while let Some((done, st)) = stack.pop() {
+        if done.count_ones() as usize == n { return Ok(st.cur); }
+        if !seen.insert(key_of(done, &st)) { continue; }
+        // minimal events: invoked before every pending event returned
+        let min_ret = (0..n).filter(|i| done & (1 << i) == 0).map(|i| h[i].ret).min().unwrap();
+        for i in 0..n {
+            if done & (1 << i) != 0 || h[i].inv > min_ret { continue; }
+            let mut s2 = st.clone();
+            let ok: Result<(), String> = match &h[i].ev {
+                Ev::SessBegin { id, obs, prev_root } => {
+                    let mut r = Ok(());
+                    if *prev_root != root_of(&s2.cur, hc) { r = Err(format!("session {id} of {} has base root {} but the state then was another", h[i].task, hex(prev_root))); }
+                    for (k, v) in obs {
+                        let want = s2.cur.get(k).map(|x| value_bytes(k, *x));
+                        if *v != want { r = Err(format!("session {id} of {} observed {} for {} which is not the state at its start", h[i].task, crate::exec::dv(v), hex(k))); break; }
+                    }
+                    s2.live += 1; s2.snaps.insert(*id, s2.cur.clone());
+                    r
+                }
+                Ev::SessEnd { id } => { s2.live -= 1; s2.snaps.remove(id); Ok(()) }
+                Ev::CommitOk { prev_root, new_root, writes } => {
+                    if s2.live > 0 { Err(format!("commit of {} took effect while a session was alive", h[i].task)) }
+                    else if *prev_root != root_of(&s2.cur, hc) { Err(format!("commit of {} succeeded on a stale base", h[i].task)) }
+                    else {
+                        s2.hist.push(s2.cur.clone());
+                        for (k, v) in writes { match v { Some(v) => { s2.cur.insert(*k, *v); } None => { s2.cur.remove(k); } } }
+                        if rollback_on { s2.retained = (s2.retained + 1).min(max_log); }
+                        if *new_root != root_of(&s2.cur, hc) { Err("committed root differs from the model".into()) } else { Ok(()) }
+                    }
+                }
+                Ev::CommitStale { prev_root } => { if *prev_root == root_of(&s2.cur, hc) { Err(format!("commit of {} was rejected although its base was current", h[i].task)) } else { Ok(()) } }
+                Ev::HandedBack => {
+                    // legitimate only if a session was alive or another writer call was in flight
+                    let other_writer = (0..n).any(|j| j != i && !matches!(h[j].ev, Ev::SessBegin { .. } | Ev::SessEnd { .. }) && h[j].inv < h[i].ret && h[j].ret > h[i].inv);
+                    let pending_session = (0..n).any(|j| matches!(h[j].ev, Ev::SessBegin { .. }) && h[j].inv < h[i].ret && h[j].ret > h[i].inv);
+                    if s2.live > 0 || other_writer || pending_session { Ok(()) } else { Err(format!("non-blocking commit of {} was handed back although nothing else was going on", h[i].task)) }
+                }
+                Ev::RollbackOk { n: k } => {
+                    if s2.live > 0 { Err("rollback took effect while a session was alive".into()) }
+                    else if !rollback_on || *k > s2.hist.len() { Err(format!("rollback({k}) succeeded with only {} commits", s2.hist.len())) }
+                    else { let keep = s2.hist.len() - k; s2.cur = s2.hist[keep].clone(); s2.hist.truncate(keep); s2.retained = s2.retained.saturating_sub(*k); Ok(()) }
+                }
+                Ev::RollbackErr { n: k } => { if rollback_on && *k <= s2.retained { Err(format!("rollback({k}) refused although {} deltas are retained", s2.retained)) } else { Ok(()) } }
+            };
+            match ok {
+                Ok(()) => stack.push((done | (1 << i), s2)),
+                Err(r) => { let d = done.count_ones(); if d >= best { best = d; best_reason = r; } }
+            }
+        }
+    }
+    // additional exact rule: a non-blocking commit whose whole call lay inside one session's lifetime must hand back
+    Err(format!("no linearisation of {n} recorded calls matches the sequential model; deepest prefix {best} events, last obstacle: {best_reason}"))
+}
+
+// ---------------------------------------------------------------------------------------------
+// C20: racing opens
+
+#[derive(Clone, Debug, Serialize, Deserialize, PartialEq)]
+pub struct OpenPlan {
+    /// "existing" | "empty" | "missing"
+    pub dir_state: String,
+    pub initial: Vec<(K, VSpec)>,
+    /// per opener: (yields before open, yields while holding, commit while holding, inject a failing commit)
+    pub openers: Vec<(u32, u32, bool, bool)>,
+}
+
+static ALIVE: AtomicI64 = AtomicI64::new(0);
+
+pub fn run_openrace(scen: &Scenario, dir: PathBuf, rep: Shared, disk: Arc<SimDisk>) {
+    match scen.hasher { Hasher::Blake3 => openrace::<Blake3Hasher>(scen, dir, rep, disk), Hasher::Sha2 => openrace::<Sha2Hasher>(scen, dir, rep, disk) }
+}
+
+fn openrace<H: HashAlgorithm + Send + Sync + 'static>(scen: &Scenario, dir: PathBuf, rep: Shared, disk: Arc<SimDisk>) {
+    let plan: OpenPlan = serde_json::from_value(scen.extra["plan_open"].clone()).expect("plan_open");
+    let mut state = State::new();
+    match plan.dir_state.as_str() {
+        "existing" => {
+            let n = match Nomt::<H>::open(to_options(&dir, &scen.opts)) { Ok(n) => n, Err(e) => { viol(&rep, "C20", "open-failed", format!("{e:#}")); return; } };
+            let s = n.begin_session(SessionParams::default());
+            let mut actuals: Vec<(Key, KeyReadWrite)> = plan.initial.iter().map(|(k, v)| (k.0, KeyReadWrite::Write(Some(value_bytes(&k.0, *v))))).collect();
+            actuals.sort_by(|a, b| a.0.cmp(&b.0));
+            if let Err(e) = s.finish(actuals).and_then(|f| f.commit(&n)) { viol(&rep, "C20", "commit-error", format!("{e:#}")); return; }
+            for (k, v) in &plan.initial { state.insert(k.0, *v); }
+            drop(n);
+            disk.adopt(&dir);
+        }
+        "empty" => { std::fs::create_dir_all(&dir).unwrap(); disk.adopt(&dir); }
+        _ => { std::fs::create_dir_all(dir.parent().unwrap()).unwrap(); }
+    }
+    ALIVE.store(0, Ordering::SeqCst);
+    let shared_state = Arc::new(Mutex::new(state));
+    #[derive(Clone, Debug)]
+    struct OpenRec { task: String, seq_inv: u64, seq_ret: u64, ok: bool, drop_ret_seq: u64, own_mutations: Vec<String> }
+    let recs: Arc<Mutex<Vec<OpenRec>>> = Arc::new(Mutex::new(Vec::new()));
+    let mut hs = Vec::new();
+    for (i, (pre, hold, commit, fail)) in plan.openers.iter().cloned().enumerate() {
+        let (dir, opts, rep2, disk2, recs, shared_state) = (dir.clone(), scen.opts.clone(), rep.clone(), disk.clone(), recs.clone(), shared_state.clone());
+        hs.push(shuttle::thread::Builder::new().name(format!("opener-{i}")).spawn(move || {
+            let task = format!("opener-{i}");
+            for _ in 0..pre { shuttle::thread::yield_now(); }
+            let seq_inv = disk2.seq_now();
+            let t0 = disk2.trace_len();
+            let r = Nomt::<H>::open(to_options(&dir, &opts));
+            let seq_ret = disk2.seq_now();
+            match r {
+                Err(_) => {
+                    // a refused open must not have modified any file: mutating events issued by this task
+                    let own: Vec<String> = disk2.trace().into_iter().skip(t0).filter(|e| e.task == task && !matches!(e.kind, 'L' | 'U')).map(|e| format!("{}:{}", e.site, e.file)).collect();
+                    recs.lock().unwrap().push(OpenRec { task, seq_inv, seq_ret, ok: false, drop_ret_seq: 0, own_mutations: own });
+                }
+                Ok(n) => {
+                    let alive = ALIVE.fetch_add(1, Ordering::SeqCst) + 1;
+                    if alive > 1 { viol(&rep2, "C20", "two-live-handles", format!("{task}: open succeeded while another handle on the directory is alive")); }
+                    disk2.adopt(&dir);
+                    // what it shows is the committed state
+                    { let st = shared_state.lock().unwrap().clone(); for (k, v) in &st { let got = n.read(*k).ok().flatten(); if got != Some(value_bytes(k, *v)) { viol(&rep2, "C20", "open-shows-wrong-state", format!("{task}: read({}) = {}", hex(k), crate::exec::dv(&got))); } } }
+                    for _ in 0..hold { shuttle::thread::yield_now(); }
+                    if commit {
+                        if fail { disk2.arm_fail_next(libc::EIO); }
+                        let s = n.begin_session(SessionParams::default());
+                        let k: Key = crate::rng::Rng::new(i as u64 + 77).bytes32();
+                        let v = VSpec { len: 9, stamp: 5000 + i as u32 };
+                        match s.finish(vec![(k, KeyReadWrite::Write(Some(value_bytes(&k, v))))]).and_then(|f| f.commit(&n)) {
+                            Ok(()) => { shared_state.lock().unwrap().insert(k, v); }
+                            Err(_) => { if !fail { viol(&rep2, "C20", "commit-error", format!("{task}: commit failed without an injected fault")); } }
+                        }
+                        disk2.clear_persistent_fail();
+                        if fail { crate::exec::quiesce(); }
+                        if fail {
+                            // the failed commit left old or new durable; learn which on the next open
+                            let mut g = shared_state.lock().unwrap();
+                            g.remove(&k);
+                            drop(g);
+                        }
+                    }
+                    ALIVE.fetch_sub(1, Ordering::SeqCst);
+                    drop(n);
+                    let drop_ret_seq = disk2.seq_now();
+                    recs.lock().unwrap().push(OpenRec { task, seq_inv, seq_ret, ok: true, drop_ret_seq, own_mutations: vec![] });
+                }
+            }
+        }).unwrap());
+    }
+    for h in hs { let _ = h.join(); }
+    if !rep.lock().unwrap().violations.is_empty() { return; }
+    let recs = recs.lock().unwrap().clone();
+    for r in &recs {
+        if !r.ok && !r.own_mutations.is_empty() {
+            viol(&rep, "C20", "refused-open-modified-files", format!("{}: open was refused but issued {:?}", r.task, r.own_mutations));
+            return;
+        }
+    }
+    // after a handle's drop returned, none of its background writers is still going: no mutating
+    // event may appear until the next open is invoked
+    let tr = disk.trace();
+    let mut wins: Vec<&OpenRec> = recs.iter().filter(|r| r.ok).collect();
+    wins.sort_by_key(|r| r.seq_ret);
+    for (a, w) in wins.iter().enumerate() {
+        let next_inv = recs.iter().filter(|r| r.seq_inv >= w.drop_ret_seq).map(|r| r.seq_inv).min().unwrap_or(u64::MAX);
+        let _ = a;
+        if let Some(e) = tr.iter().find(|e| e.seq >= w.drop_ret_seq && e.seq < next_inv && !matches!(e.kind, 'L' | 'U')) {
+            viol(&rep, "C20", "io-after-drop", format!("{}: {} on '{}' (task {}) was issued after the handle's drop had returned and before any further open", w.task, e.site, e.file, e.task));
+            return;
+        }
+    }
+    if wins.is_empty() && plan.dir_state != "missing" { viol(&rep, "C20", "no-open-succeeded", "every racing open was refused".into()); return; }
+    // finally: the directory can be opened again and shows the committed state (old or new of a failed commit)
+    match Nomt::<H>::open(to_options(&dir, &scen.opts)) {
+        Ok(n) => {
+            let st = shared_state.lock().unwrap().clone();
+            for (k, v) in &st { let got = n.read(*k).ok().flatten(); if got != Some(value_bytes(k, *v)) { viol(&rep, "C20", "open-shows-wrong-state", format!("final open: read({}) = {}", hex(k), crate::exec::dv(&got))); return; } }
+        }
+        Err(e) => { viol(&rep, "C20", "reopen-after-drop-failed", format!("after every handle was dropped the directory cannot be opened: {e:#}")); return; }
+    }
+    let mut r = rep.lock().unwrap();
+    r.commits += 1;
+    r.reads_checked += recs.len() as u64;
+    r.steps_done = recs.len();
+    *r.probes.entry("open.refused".into()).or_default() += recs.iter().filter(|x| !x.ok).count() as u64;
+    *r.probes.entry("open.won".into()).or_default() += recs.iter().filter(|x| x.ok).count() as u64;
+    r.signature ^= recs.iter().fold(0u64, |a, x| crate::rng::mix(a ^ x.seq_inv ^ (x.seq_ret << 24) ^ x.ok as u64));
+    let _ = Report::default;
+}
